@@ -176,11 +176,12 @@ def ackGroup (s : St) (a : Int) : St :=
 def resetReplicaIndex (s : St) (idx : Int) : St := { s with cons := idx - 1 }
 
 /-- `replicator.ResetAppendIndex(idx)` = `fanOutQueue.SetAppendedSeq(idx-1)`: the queue and EVERY
-consumer group of the partition, i.e. the other follower's group too (ghost `dz2` records that the
-other channel was ready when that happened) -/
+registered consumer group of the partition, i.e. the other follower's group too unless IsExpire has
+stopped it (ghost `dz2` records that the other channel was ready when that happened) -/
 def resetAppendIndex (s : St) (idx : Int) : St :=
   { s with L := s.L.setAppended (idx - 1), cons := idx - 1, gack := idx - 1,
-           cons2 := idx - 1, gack2 := idx - 1,
+           cons2 := if s.stopped2 then s.cons2 else idx - 1,
+           gack2 := if s.stopped2 then s.gack2 else idx - 1,
            dz2 := if s.chan2 = .ready then true else s.dz2 }
 
 /-- `replicator.IgnoreMessage` -/
@@ -300,20 +301,22 @@ def syncGC (s : St) : St :=
     let a2 := if s.stopped2 = false ∧ s.gack2 < a1 then s.gack2 else a1
     if 0 ≤ a2 then { s with L := s.L.setAck a2 } else s
 
+/-- `partition.stopReplicator`: the group is closed and removed from the fan-out queue, the
+replicator is closed (its stream too) and removed; its state is not observable any more, the model
+parks it at `init`/no stream -/
+def stopA (s : St) : St := { s with stopped := true, stream := .none, chan := .init }
+def stopB (s : St) : St := { s with stopped2 := true, stream2 := .none, chan2 := .init }
+
 /-- `partition.IsExpire` on a family past its write window: Sync, GC, then every registered group
 with nothing un-ACKNOWLEDGED (`consumerGroup.IsEmpty`: appended ≤ acknowledged) is stopped
 together with its replicator (the replicator object is gone: its state is not observable any more,
 the model parks it at `init`/no stream); expired iff no group has data -/
 def expire (s : St) : St × Out :=
-  let s := syncGC s
-  let dA := decide (s.L.app ≤ s.gack)      -- A's group IsEmpty
-  let dB := decide (s.L.app ≤ s.gack2)
-  let stopA := s.stopped = false ∧ dA = true
-  let stopB := s.stopped2 = false ∧ dB = true
-  let hasData := (s.stopped = false ∧ dA = false) ∨ (s.stopped2 = false ∧ dB = false)
-  let s := if stopA then { s with stopped := true, stream := .none, chan := .init } else s
-  let s := if stopB then { s with stopped2 := true, stream2 := .none, chan2 := .init } else s
-  if hasData then (s, .idle) else ({ s with gone := true }, .expired)
+  let t := syncGC s
+  let t1 := if t.stopped = false ∧ t.L.app ≤ t.gack then stopA t else t          -- A's group IsEmpty
+  let t2 := if t.stopped2 = false ∧ t.L.app ≤ t.gack2 then stopB t1 else t1
+  let hasData := (t.stopped = false ∧ ¬ t.L.app ≤ t.gack) ∨ (t.stopped2 = false ∧ ¬ t.L.app ≤ t.gack2)
+  if hasData then (t2, .idle) else ({ t2 with gone := true }, .expired)
 
 inductive Who | a | b
   deriving Repr, DecidableEq
